@@ -1,7 +1,18 @@
 # CPU_OFF and COMMON_ASSUME are injected by props.py
+_CFG = [c for c in CPU_OFF if c["name"] in ("default", "purego", "noavx2")]
+_MODES = [("mldsa44", "./sign/mldsa/mldsa44"), ("mldsa65", "./sign/mldsa/mldsa65"), ("mldsa87", "./sign/mldsa/mldsa87"),
+          ("mode2", "./sign/dilithium/mode2"), ("mode3", "./sign/dilithium/mode3"), ("mode5", "./sign/dilithium/mode5")]
 SPEC = {
     "bins": [
-        {"name": "c04", "pkg": "./zz_verif/c04", "run": ".", "shards": {"quick": 2, "thorough": 16}},
+        {"name": "c04", "pkg": "./zz_verif/c04", "run": "^TestC04", "configs": _CFG, "quick_configs": ["default", "noavx2"],
+         "shards": {"quick": 2, "thorough": 16}},
+        {"name": "c04-common", "pkg": "./sign/internal/dilithium", "run": "^TestC04", "whitebox": True, "configs": _CFG,
+         "quick_configs": ["default", "noavx2"], "shards": {"quick": 1, "thorough": 16}},
+    ] + [
+        {"name": "c04-int-" + n, "pkg": p + "/internal", "run": "^TestC04", "whitebox": True, "configs": _CFG,
+         "quick_configs": ["default"], "shards": {"quick": 1, "thorough": 16}} for n, p in _MODES
+    ] + [
+        {"name": "c04-pkg-" + n, "pkg": p, "run": "^TestC04", "whitebox": True, "shards": {"quick": 1, "thorough": 4}} for n, p in _MODES[:3]
     ],
     "rule": "TBD",
     "assumptions": COMMON_ASSUME + [],
